@@ -238,6 +238,31 @@ def r07_2(ck):
                'below the node',
                'build_topology_views no longer recurses / recomputes '
                'schema_topology')
+    cb = cfg_of(btv.node)
+    for s2 in A.walk_no_nested(btv.node):
+        if isinstance(s2, ast.Assign) and A.unparse(
+                s2.targets[0]) == 'self.topology_view':
+            g = cb.guards(cb.node(s2))
+            extra = {a for a in g if not (
+                a in (('truthy', 'self.leaf'),) or
+                (a[0] == 'isinstance' and a[1] == 'self.value'))}
+            ck.require(not extra, 'R07.2', btv, s2,
+                       'every process view is recomputed on a rebuild (no '
+                       'condition other than "this node holds a process")',
+                       'the view of a process is only rebuilt under %s: a '
+                       'stale view survives structural updates' % sorted(
+                           extra), s2)
+    for c in A.calls_in(btv.node, 'build_topology_views'):
+        if not A.is_name(A.call_receiver(c), 'self'):
+            g = cb.guards(cb.node(c))
+            extra = {a for a in g if a != ('falsy', 'self.leaf')}
+            lp = _loop_of(c, btv.node)
+            ok2 = not extra and lp is not None and 'self.inner' in \
+                A.unparse(lp.iter)
+            ck.require(ok2, 'R07.2', btv, c,
+                       'the rebuild visits every child of every branch',
+                       'the rebuild skips children (guards %s)' % sorted(
+                           extra), c)
     for c in A.calls_in(btv.node, 'schema_topology'):
         ok = A.unparse(A.call_receiver(c)) == 'self.outer' and 'schema' in \
             A.unparse(A.arg_of(c, 0)) and A.unparse(
